@@ -119,3 +119,14 @@ Theorem C07_straggler_of_the_previous_connection_vanishes :
   forward v (S fuel) now p w2 = (w2, []).
 Proof. exact straggler_vanishes_after_tcp_reopen. Qed.
 Print Assumptions C07_straggler_of_the_previous_connection_vanishes.
+
+(* what the connector writes goes to the accepted socket of ITS pair: the route of the
+   connection towards the acceptor's side now ends at the accepted socket's own forwarder *)
+Theorem C07_accepted_socket_ends_the_connectors_route :
+  forall cx peer ep ci w,
+  let w' := fst (tcp_internal_connect cx peer ep ci w) in
+  exists f, t_fwd (get_tcp w' peer) = Some f /\
+            last (ch_hops1 (get_chan w' ci)) 0 = f /\
+            mget SNone (w_sinks w') f = SFwd (Some (OTcp peer)).
+Proof. exact accepted_socket_ends_the_connectors_route. Qed.
+Print Assumptions C07_accepted_socket_ends_the_connectors_route.
